@@ -153,6 +153,7 @@ func jHints(pas []types.PAData) jv.V {
 }
 
 func c09(c *Ctx) {
+	checkPrincipalEqual(c)
 	realm := "TEST.GOKRB5"
 	skew := 5 * time.Minute
 	tampers := repTampers(c)
